@@ -52,8 +52,28 @@ def parseCond : List String → Option (Cond × List String)
     | none => none
   | _ => none
 
+/-- `(x e) (x e) … )` of a tuple assignment -/
+partial def parsePairs : List String → Option (List (Nat × Expr) × List String)
+  | ")" :: r => some ([], r)
+  | "(" :: x :: r =>
+    match parseExpr r with
+    | some (e, ")" :: r1) =>
+      match parsePairs r1 with
+      | some (ps, r2) => some ((nat! x, e) :: ps, r2)
+      | none => none
+    | _ => none
+  | _ => none
+
 partial def parseStmt : List String → Option (Stmt × List String)
   | "skip" :: r => some (.skip, r)
+  | "(" :: "tasg" :: r =>
+    match parsePairs r with
+    | some (ps, r1) => some (.tassign ps, r1)
+    | none => none
+  | "(" :: "def" :: r =>
+    match parsePairs r with
+    | some (ps, r1) => some (.define ps, r1)
+    | none => none
   | "brk" :: r => some (.brk, r)
   | "cont" :: r => some (.cont, r)
   | "(" :: "forp" :: r =>
@@ -201,7 +221,7 @@ def doProg (line : String) (fs : List String) : List String × Option (String ×
     let xeq := !isPlain || (compileXP p == compile p && goEvalX env w fuel p == goEval env w fuel p)
     let srcLine := s!"SRC {id} done={b2s src.2} outs={outsStr src.1}"
     match compileXP p with
-    | none => ([s!"M {id} asm=!reject", srcLine], none)
+    | none => ([s!"M {id} asm={if redeclProg p then "!refused:already-defined" else "!reject"}", srcLine], none)
     | some code =>
       let run := runCode env w code steps
       -- Usage_Monitor keeps the largest cell number ever handed out (+1), block-local cells included
